@@ -97,6 +97,22 @@ PROPS = {
                    'round trip are std calls and fmt code outside the dialect; which characters go into the digit buffer is verified only as far as the cursor moves.',
         not_decided=['values of integer / real / string literals', 'print / read-back round trip', 'XstrLines'],
     ),
+    'C18': dict(
+        title='Text encodings of binary data round-trip',
+        verus_units=['cursor'],
+        kani_groups=[],
+        design_ref='DESIGN.md section 5 / C18',
+        technique='Verus contracts on the twelve wrapper words of src/base_ext.rs over stand-ins of the three codec crates (uninterpreted enc/dec per codec), '
+                  'plus four pair lemmas (encode then decode) over those contracts',
+        level_text='Partial: everything xeh owns, for all inputs. Proved: each encoder takes exactly what `>bitstr` takes (it calls into_bitstr, whose contract is the '
+                   'flattening spec of C07), requires whole bytes, and pushes the codec\'s text of THOSE bytes; each decoder pushes the codec\'s bytes as a bit-string, and nil '
+                   '(never an error, never another value) when the codec rejects the text or the operand is not a string; both words of a pair use the same codec and the '
+                   'same alphabet (base32: RFC4648 with padding, base32hex: the Crockford alphabet on BOTH sides), so encode followed by decode returns the original bits '
+                   'given the crate\'s own round-trip law; stack discipline and reversibility of all twelve words.',
+        level_note='ASSUMED, not proved: decode(encode(b)) == Some(b) inside the crates base32, base64 and z85 (axiom_roundtrip of each stand-in) and that their decoders reject invalid '
+                   'text - the bit-level codec algorithms are not xeh code. The stand-ins mirror the call signatures used by src/base_ext.rs.',
+        not_decided=['the codec algorithms of the three crates (assumed law)', 'for every length: follows from the assumed law, not from xeh code'],
+    ),
     'C17': dict(
         title='Every error points at the token that caused it',
         verus_units=['state', 'compile', 'lex', 'build'],
@@ -251,7 +267,6 @@ PROPS = {
 # properties not claimed: reason goes to MANIFEST.not_applicable
 NOT_APPLICABLE = {
     'C03': 'clone independence is an aliasing property between two objects over later histories; Verus models Rc without identity/sharing and any Kani harness holding a State did not finish (>15 min): no contract within reach can express it',
-    'C18': 'the round-trip law lives entirely in the external base32/base64/z85 crates; assuming it would make the wrappers verify vacuously; the xeh-owned byte export is a C04 obligation',
 
 
 
